@@ -288,12 +288,15 @@ def euler(ai, bi, select, b1950=False, dtype="f8"):
     cb = cos(b)
     cbsa = cb * sin(a)
     b = -stheta[i] * cbsa + ctheta[i] * sb
-    (w,) = np.where(b > 1.0)
-    if w.size > 0:
-        b[w] = 1.0
-    bo = arcsin(b) * R2D
 
-    a = arctan2(ctheta[i] * cbsa + stheta[i] * sb, cb * cos(a))
+    # rotated vector; the latitude is taken with arctan2 rather than
+    # arcsin(b): the tabulated stheta,ctheta are not exactly normalised, so
+    # b can exceed unity (nan) and arcsin loses all precision near the poles
+    xo = cb * cos(a)
+    yo = ctheta[i] * cbsa + stheta[i] * sb
+    bo = arctan2(b, sqrt(xo * xo + yo * yo)) * R2D
+
+    a = arctan2(yo, xo)
 
     ao = ((a + psi[i] + fourpi) % twopi) * R2D
 
